@@ -5,6 +5,7 @@
    sequential core of Close()/GracefulStop (the flush). The all-schedules partial theorem
    planned in DESIGN 7/C16 (C16_partial_no_lifecycle_race) is not proved. *)
 From HV Require Import Base.Prelude Conc.Lifecycle Conc.LifecycleProofs.
+From HV Require Conc.Buffer Conc.BufferProofs.
 
 (* (i) W1 deletes the last record and decides to auto-destroy while W2 inserts: W2's write is
    acknowledged, Destroy drains W2's vigil and removes the file. Both write modes. *)
@@ -37,3 +38,45 @@ Theorem C16_close_flush_durable : forall s i k,
   last_op k (pend (insts s i)) None = Some true -> mem_nat k (disk (close_flush s i)) = true.
 Proof. exact close_flush_durable. Qed.
 Print Assumptions C16_close_flush_durable.
+
+(* ---- the write buffer of one instance, ALL schedules of any number of concurrent writers,
+   deleters and flushers (Conc/Buffer.v, tied to fileWriterHandler/SaveFunction by trace
+   acceptance of forced flush-window schedules) ---- *)
+
+(* Whenever nothing is queued and no collected batch is unwritten, the chronicler holds the
+   current value of every live key. *)
+Theorem C16_buffer_quiescent_durable : forall progs sched k v,
+  let s := Buffer.run false (Buffer.init progs) sched in
+  Buffer.queue s = [] -> (forall t, Buffer.batch (Buffer.pcs s t) = []) ->
+  Buffer.mem s k = Buffer.Live v -> Buffer.disk s k = Some v.
+Proof. exact BufferProofs.buffer_quiescent_durable. Qed.
+Print Assumptions C16_buffer_quiescent_durable.
+
+(* In every reachable state a live key whose current value the chronicler does not hold yet is
+   still queued or in a batch a running flusher is going to write: no acknowledged Save is ever
+   dropped from the buffer. *)
+Theorem C16_buffer_tracks_unwritten : forall progs sched k v,
+  let s := Buffer.run false (Buffer.init progs) sched in
+  Buffer.mem s k = Buffer.Live v -> Buffer.disk s k <> Some v ->
+  Buffer.mem_nat k (Buffer.queue s) = true \/ exists t, In k (Buffer.batch (Buffer.pcs s t)).
+Proof. exact BufferProofs.buffer_tracks_unwritten. Qed.
+Print Assumptions C16_buffer_tracks_unwritten.
+
+(* In every reachable state in which no other flush is in flight, the close-write of
+   Close()/GracefulStop run to completion makes every live key durable with its current value. *)
+Theorem C16_close_write_makes_durable : forall progs sched t k v,
+  let s := Buffer.run false (Buffer.init progs) sched in
+  Buffer.pcs s t = Buffer.FColl -> (forall x, x <> t -> Buffer.batch (Buffer.pcs s x) = []) ->
+  let s' := Buffer.run false s (repeat t (3 + length (Buffer.queue s))) in
+  Buffer.mem s' k = Buffer.Live v -> Buffer.disk s' k = Some v.
+Proof. exact BufferProofs.close_write_makes_durable. Qed.
+Print Assumptions C16_close_write_makes_durable.
+
+(* Dequeuing the batch only after it was written (instead of before) loses an update that is
+   acknowledged while the batch is being written. *)
+Theorem C16_late_dequeue_refuted :
+  let s := Buffer.run true (Buffer.init (Buffer.progs_of Buffer.w_late_progs)) Buffer.w_late in
+  Buffer.mem s 0 = Buffer.Live 2 /\ Buffer.disk s 0 = Some 1 /\ Buffer.queue s = [] /\
+  forallb (fun t => match Buffer.batch (Buffer.pcs s t) with [] => true | _ => false end) [0;1;2;3] = true.
+Proof. exact BufferProofs.late_dequeue_loses_update. Qed.
+Print Assumptions C16_late_dequeue_refuted.
